@@ -107,15 +107,22 @@ def run(chk, prog):
     chk.instance("O1", "%s:%s" % (f.file, f.line), "relay buffer is allocated per copy_half invocation", ok)
     if not ok:
         chk.finding("O1", f.key, "alloc", "sbuf", "%s:%s" % (f.file, f.line), "copy_half no longer allocates its own relay buffer")
-    # O1: statics
-    BUFFY = re.compile(r"bytes::bytes(_mut)?::Bytes|alloc::vec::Vec<u8>|BufReader|BufWriter|IOStream|TcpStream|VecDeque<u8>|\[u8;")
+    # O1: statics -- a reviewed whitelist: anything else is state that outlives a connection and must be looked at
+    ALLOWED = re.compile(r"^tracing_core::(callsite::DefaultCallsite|metadata::Metadata)|^lazy_static::lazy::Lazy<prometheus::|"
+                         r"^core::sync::atomic::Atomic<(u8|u16|u32|u64|usize|bool)>$|^&'?\w* ?\[&'?\w* ?str\]$|^&'?\w* ?str$|^\[&'?\w* ?str; \d+\]$")
     ns = 0
     for s in prog.items["redproxy_rs"]["statics"]:
         ns += 1
         ty = prog.types["redproxy_rs"][s["ty"]]["s"]
-        ok = not BUFFY.search(ty)
+        marker = ty == s["path"]          # lazy_static's zero-sized handle type, named like the static itself
+        ok = bool(ALLOWED.search(ty)) or marker
         chk.instance("O1", s["span"]["f"], "static %s: %s" % (s["path"], ty[:70]), ok, nontrivial=False)
         if not ok:
             chk.finding("O1", s["path"], "static", ty[:60], "%s:%s" % (s["span"]["f"], s["span"]["l"]),
-                        "static %s holds a byte container or stream (%s): data of one connection can appear in another" % (s["path"], ty[:80]))
+                        "static %s of type %s is process-wide mutable state outside the reviewed list (metrics, tracing call sites, atomic counters): "
+                        "buffers, descriptors, pipes or queues shared between tunnels let bytes of one connection appear in another" % (s["path"], ty[:100]))
     chk.floor("O1", ns, 1, "statics enumerated")
+
+    # AFD1: tokio's AsyncFd contract -- readiness may be cleared only after the operation reported WouldBlock; clearing it after a
+    # partial transfer parks the relay on an edge that never comes (the pipe still holds data)
+    shared.rule_afd1(chk, prog)
